@@ -514,9 +514,14 @@ def g_kern_structure(tier, seed):
                                 sms = []
                                 for s in range(nsp):
                                     sms.append([reindex(fs[(s * 2 + mi + 1) % 5], s * 3 + mi) for mi in range(2)])
+                                if nsp == 1:
+                                    clefs = [clef]
+                                elif mark[0] == "same" and staffs[0] == staffs[1]:
+                                    clefs = [clef, clef]  # two spines on one staff of one part: one clef
+                                else:
+                                    clefs = [("F", 4) if clef else None, clef]
                                 doc = kern_doc(sms, meter=meter, key=(fifths, None), style=style,
-                                               staffs=staffs[:nsp], clefs=[clef, ("F", 4) if clef else None][:nsp][::-1] if nsp == 2 else [clef],
-                                               parts=parts)
+                                               staffs=staffs[:nsp], clefs=clefs, parts=parts)
                                 c = {"f": "kern", "doc": doc}
                                 if tier == "thorough" or block_of(c, 3) == seed % 3 or (meter == (4, 4) and fifths in (0, 2)):
                                     yield c
@@ -703,16 +708,30 @@ def _strip(fill):
     return [e for e in fill]
 
 
-def g_roundtrip(tier, seed):
+def g_roundtrip(fmt, tier, seed):
     """parts the writers can express: 1-2 staves x 1-2 voices x 2 measures x fillings; rhythm sequences with dots;
-    tuplet groups; ties; grace notes.  Each part is exported with save_mei and with save_kern."""
+    tuplet groups; ties; pitches; grace notes (MEI).  fmt selects the writer (save_mei / save_kern); the kern writer
+    costs ~0.1-0.3 s per part (it iterates over all classes at every time point), so quick takes hash blocks."""
+    kq = fmt == "kern" and tier == "quick"
+
+    def take(c, nb_mei, nb_kern):
+        nb = nb_kern if fmt == "kern" else nb_mei
+        if tier == "thorough" or nb == 1:
+            return True
+        return block_of(c, nb) == seed % nb
+
+    def mk(doc, **kw):
+        c = {"f": "rt", "w": fmt, "doc": doc}
+        c.update(kw)
+        return c
+
     # (a) rhythm: single voice, all sequences of <=2 events + a closing note
     alpha = [(k, v, d) for k in ("n", "c", "r") for v in VALUES for d in DOTS]
     for n in (1, 2):
         for s in seqs(alpha, n):
             evs = [lf(k, v, d, i) for i, (k, v, d) in enumerate(s)] + [lf("n", 4, 0, 3)]
-            c = {"f": "rt", "doc": mei_doc([[evs]])}
-            if tier == "thorough" or n == 1 or block_of(c, 4) == seed % 4:
+            c = mk(mei_doc([[evs]]))
+            if n == 1 or take(c, 2, 24):
                 yield c
     # (b) layout
     fs = fillings((4, 4), "kern")
@@ -733,8 +752,8 @@ def g_roundtrip(tier, seed):
                         pi += 2
                     layers.append({"n": ln, "m": ms})
                 staves.append({"n": sn, "clef": ["G", 2] if sn == 1 else ["F", 4], "layers": layers})
-            c = {"f": "rt", "doc": {"meter": [4, 4], "key": [sum(choice) % 5 - 2, "major"], "nm": 2, "staves": staves, "mei": {}}}
-            if tier == "thorough" or slots <= 2 or block_of(c, 3) == seed % 3:
+            c = mk({"meter": [4, 4], "key": [sum(choice) % 5 - 2, "major"], "nm": 2, "staves": staves, "mei": {}})
+            if take(c, 1 if slots <= 4 else 3, 5 if slots <= 2 else 40):
                 yield c
     # (c) tuplets
     for num, nb, v in TUPLETS[:6]:
@@ -753,29 +772,36 @@ def g_roundtrip(tier, seed):
                     evs.append({"k": "tup", "num": num, "nb": nb, "ev": mem})
                     if post:
                         evs.append(lf(post[0], post[1], post[2], i))
-                    yield {"f": "rt", "doc": mei_doc([[evs, [lf("n", 4, 0, 5)]]])}
-    # (d) ties (single notes and chords; chains of three)
+                    c = mk(mei_doc([[evs, [lf("n", 4, 0, 5)]]]))
+                    if take(c, 1, 3):
+                        yield c
+    # (d) ties (single notes and chords; chains of three and four)
     for ms in _tie_seq_cases("mei"):
-        c = {"f": "rt", "doc": mei_doc([ms])}
-        if tier == "thorough" or block_of(c, 3) == seed % 3:
+        c = mk(mei_doc([ms]))
+        if take(c, 2, 20):
             yield c
     chain = [[{"k": "n", "v": 2, "d": 0, "p": [["C", None, 4]], "tie": [1]}, {"k": "n", "v": 2, "d": 0, "p": [["C", None, 4]], "tie": [1]}],
              [{"k": "n", "v": 1, "d": 0, "p": [["C", None, 4]]}]]
-    yield {"f": "rt", "doc": mei_doc([chain])}
+    yield mk(mei_doc([chain]))
     chain2 = [[{"k": "n", "v": 2, "d": 0, "p": [["B", -1, 3]], "tie": [1]}, {"k": "n", "v": 2, "d": 0, "p": [["B", -1, 3]], "tie": [1]}],
               [{"k": "n", "v": 2, "d": 0, "p": [["B", -1, 3]], "tie": [1]}, {"k": "n", "v": 2, "d": 0, "p": [["B", -1, 3]]}]]
-    yield {"f": "rt", "doc": mei_doc([chain2])}
+    yield mk(mei_doc([chain2]))
     # (e) pitches
     for o in range(1, 8):
         for a in ALTERS:
             evs = [{"k": "n", "v": 4, "d": 0, "p": [[st, a, o]]} for st in "CDEFGAB"]
             evs.append({"k": "c", "v": 4, "d": 0, "p": [["C", a, o], ["E", a, o], ["G", a, o]]})
-            yield {"f": "rt", "doc": mei_doc([[evs]], key=((o * 2 + (a or 0)) % 15 - 7, None))}
-    # (f) grace notes (MEI writer only: the kern writer puts a grace note into the main note's token)
-    for pos in range(3):
-        evs = [lf("n", 4, 0, 0), lf("n", 4, 0, 1), lf("n", 2, 0, 2)]
-        evs[pos:pos] = [lf("g", 8, 0, 5)]
-        yield {"f": "rt", "doc": mei_doc([[evs]]), "only": "mei"}
+            c = mk(mei_doc([[evs]], key=((o * 2 + (a or 0)) % 15 - 7, None)))
+            if take(c, 1, 3):
+                yield c
+    # (f) grace notes (MEI writer only: the kern writer puts a grace note into the token of its main note)
+    if fmt == "mei":
+        for ctx in ([("n", 4), ("n", 4), ("n", 2)], [("r", 4), ("c", 4), ("n", 2)]):
+            for pos in range(3):
+                for ng in (1, 2):
+                    evs = [lf(k, v, 0, i) for i, (k, v) in enumerate(ctx)]
+                    evs[pos:pos] = [lf("g", 8, 0, 5 + j) for j in range(ng)]
+                    yield mk(mei_doc([[evs, [lf("n", 1, 0, 4)]]]))
 
 
 def g_dispatch(tier, seed):
@@ -826,8 +852,10 @@ def spaces(tier, seed):
         sp("kern-changes", g_kern_changes, "meter {4/4,3/4,6/8}^2 x key change x at measure 2/3 x 1-2 spines"),
         sp("kern-split", g_kern_split, "spine split for measure 1 or 2: 5 main fillings x 5 sub-spine fillings x {alone, second spine left, right}"),
         sp("kern-chord-ties", g_kern_chord_ties, "the mei-ties sequences whose ties touch a chord, written in kern"),
-        sp("roundtrip", g_roundtrip, "parts built through the public API: rhythm sequences (<=2 events, dots), 4 staff/voice layouts x fillings, "
-           "tuplet groups, tie patterns, 7x6x7 pitches, grace notes; each exported by save_mei and save_kern and re-loaded" + q),
+        sp("roundtrip-mei", g_roundtrip, "parts built through the public API: rhythm sequences (<=2 events, dots), 4 staff/voice layouts x fillings, "
+           "tuplet groups, tie patterns, 7x6x7 pitches, grace notes; save_mei -> load_mei" + q, "mei"),
+        sp("roundtrip-kern", g_roundtrip, "the same parts without grace notes; save_kern -> load_kern; quick: 1-event rhythms complete, the "
+           "other families by hash block (the writer needs 0.1-0.3 s per part)" + q, "kern"),
         sp("dispatch", g_dispatch, "load_score on .mei/.MEI/.Mei/.krn/.kern/.KRN/.Kern; wrong extension for the content"),
     ]
 
@@ -1079,9 +1107,7 @@ def eval_roundtrip(case, res):
     spec, expected = part_spec(case["doc"])
     nn = 0
     outs = []
-    for fmt in ("mei", "kern"):
-        if case.get("only") and case["only"] != fmt:
-            continue
+    for fmt in (case["w"],):
         part = build_part(spec)
         path = os.path.join(_tmpdir(), "c19rt." + ("mei" if fmt == "mei" else "krn"))
         try:
